@@ -398,8 +398,10 @@ func axBEFixedMin(v Mathint, n int) {}
 //@ ensures v >= 0 && v < ECOrder(CurveP384()) ==> BitLenOf(v) <= 384
 func axP384OrderBits(v Mathint) {}
 
-// Multiples of base-point multiples (same group facts as axECMulMul, for points given as k*G).
+// Multiples of base-point multiples (same group facts as axECMulMul, for points given as k*G). Not a global
+// axiom (together with axECMulMul it sends the solvers into matching loops): a lemma that needs the fact
+// calls AxECMulBase for the scalars at hand.
 //
-//@ lemma auto trusted
+//@ lemma trusted
 //@ ensures a >= 0 && b >= 0 ==> ECMulX(c, a, ECBaseX(c, b), ECBaseY(c, b)) == ECBaseX(c, (a*b)%ECOrder(c)) && ECMulY(c, a, ECBaseX(c, b), ECBaseY(c, b)) == ECBaseY(c, (a*b)%ECOrder(c))
-func axECMulBase(c elliptic.Curve, a, b Mathint) {}
+func AxECMulBase(c elliptic.Curve, a, b Mathint) {}
